@@ -141,9 +141,13 @@ theorem evalBytes_rejects_non_json (decode : String → Option (Val N)) (encode 
 
 /-! ### regenerated facts -/
 
-/-- EvalBytes is Unmarshal, Eval, Marshal, in that order and nothing else -/
+/-- EvalBytes is Unmarshal, then Eval, then Marshal (trace inlined through package-local helpers) -/
 theorem fact_evalBytes_shape :
-    Generated.exprEvalBytesEvents = ["call:Unmarshal", "call:Eval", "call:Marshal"] := by decide
+    let ev := Generated.exprEvalBytesEvents
+    ev.findIdx (· == "call:Unmarshal") < ev.findIdx (· == "call:Eval") ∧
+    ev.findIdx (· == "call:Eval") < ev.findIdx (· == "call:Marshal") ∧
+    ev.contains "call:Marshal" = true ∧
+    (ev.filter (· == "call:Unmarshal")).length = 1 ∧ (ev.filter (· == "call:Marshal")).length = 1 := by decide
 
 /-- Eval's final conversion tests validity (ErrUndefined), interface-ability and nil pointers -/
 theorem fact_eval_conversion :
